@@ -30,10 +30,10 @@ static LD const TINY_ = 2.2250738585072014e-308L;
 #define VP_K 32
 #endif
 
-enum { L_FIELD, L_POWLOG, L_TRIG, L_ITRIG, L_HYP, L_IHYP, L_REALARG, L_PAIRS, L_Q1, L_Q2, L_Q3, L_Q4, L_NEAR_AXIS, L_ON_AXIS, L_SMALL, L_LARGE, L_NEAR_SWITCH, L_PUSHED_OFF_CUT, L_WIDE_MODULUS, L_ALGO_CORNER, L_LINKED };
+enum { L_FIELD, L_POWLOG, L_TRIG, L_ITRIG, L_HYP, L_IHYP, L_REALARG, L_PAIRS, L_Q1, L_Q2, L_Q3, L_Q4, L_NEAR_AXIS, L_ON_AXIS, L_SMALL, L_LARGE, L_NEAR_SWITCH, L_PUSHED_OFF_CUT, L_WIDE_MODULUS, L_ALGO_CORNER, L_LINKED, L_ORIGIN };
 static char const *const labels[] = {"field_arithmetic", "sqrt_pow_exp_log", "trigonometric", "inverse_trigonometric", "hyperbolic", "inverse_hyperbolic", "real_argument_variants",
                                      "inverse_pairs", "quadrant_1", "quadrant_2", "quadrant_3", "quadrant_4", "near_axis", "exactly_on_axis", "modulus_lt_0.5", "modulus_gt_2",
-                                     "modulus_near_formula_switch", "moved_off_branch_cut", "modulus_beyond_2^+-27", "inverse_family_algorithm_region_corner", "same_function_again_with_operand_mapped_through_the_library", nullptr};
+                                     "modulus_near_formula_switch", "moved_off_branch_cut", "modulus_beyond_2^+-27", "inverse_family_algorithm_region_corner", "same_function_again_with_operand_mapped_through_the_library", "argument_is_the_origin", nullptr};
 static char const *const metrics[] = {"field_err", "powlog_err", "trig_err", "itrig_err", "hyp_err", "ihyp_err", "realarg_err", "pairs_err", nullptr};
 static uint8_t const dict[] = {0, 1, 2, 3, 4, 5, 6, 7};
 static vp_info const info = {"C10", VP_CFG, "", labels, metrics, 96, dict, sizeof(dict)};
@@ -190,14 +190,24 @@ static a_real modulus(Tape &t, Ctx &cx)
 }
 
 // complex argument: modulus class x angle class
+static bool g_origin = false;
 static a_complex gen_z(Tape &t, Ctx &cx, bool &offaxis_interesting, bool wide = false)
 {
     a_real m = (wide && t.u8() % 3 == 0) ? wide_modulus(t, cx) : modulus(t, cx);
-    uint8_t ac = t.u8() % 10;
+    uint8_t acb = t.u8(), ac = acb % 10;
     double th;
     a_complex z;
     offaxis_interesting = false;
-    if (ac < 5)
+    if (acb >= 250)
+    {
+        // the origin itself (the functions that branch on a zero argument; where 0 is a pole the reference is not finite and
+        // the case is counted as excluded)
+        z.real = 0;
+        z.imag = 0;
+        cx.label(L_ORIGIN);
+        g_origin = true;
+    }
+    else if (ac < 5)
     {
         // interior of a quadrant
         unsigned q = ac % 4;
@@ -362,6 +372,7 @@ static void case_fn(Tape &t, Ctx &cx)
     Fn const &f = fns[id];
     bool inter, inter2 = false;
     bool wide = (f.family == 0 || (f.family == 1 && f.growth == 0)) && strcmp(f.name, "polar") != 0;
+    g_origin = false;
     a_complex z = gen_z(t, cx, inter, wide), w = {1, 0};
     a_real s = 1;
     bool side = t.coin();
@@ -387,7 +398,12 @@ static void case_fn(Tape &t, Ctx &cx)
     {
         if (linked) { w = wl; }
         else { w = gen_z(t, cx, inter2, wide); }
-        if (!strcmp(f.name, "logb")) { push_off_cut(CUT_NEGREAL, w, !side, cx); }
+        if (!strcmp(f.name, "logb"))
+        {
+            // base 0 is not in the domain of a logarithm (log 0 is a pole; the quotient by it only looks finite in the reference)
+            if (w.real == 0 && w.imag == 0) { ++cx.rep->excluded; return; }
+            push_off_cut(CUT_NEGREAL, w, !side, cx);
+        }
         if (f.growth == 3)
         {
             // keep the exponent moderate so that the power is representable
@@ -407,13 +423,13 @@ static void case_fn(Tape &t, Ctx &cx)
         a_real &g = f.growth == 1 ? z.real : z.imag;
         if (fabsl((LD)g) > EXPLIM) { g = a_real(std::fmod(double(g), double(EXPLIM))); }
     }
-    if (f.growth == 3)
+    if (f.growth == 3 && !(z.real == 0 && z.imag == 0))
     {
         LD lm = fabsl(logl(hypotl((LD)z.real, (LD)z.imag)));
         LD we = f.arity == 2 ? hypotl((LD)w.real, (LD)w.imag) : fabsl((LD)s);
         if (lm * we > EXPLIM) { ++cx.rep->excluded; return; }
     }
-    if (z.real == 0 && z.imag == 0) { z.real = 1; }
+    if (z.real == 0 && z.imag == 0 && !g_origin) { z.real = 1; }
     g_prev_id = f.arity == 2 ? int(id) : -1;
     g_prev_w = w;
     C Z((LD)z.real, (LD)z.imag), W((LD)w.real, (LD)w.imag);
